@@ -1164,7 +1164,8 @@ class EtreeElementNode(ElementNode):
 
     @property
     def nilled(self) -> bool:
-        return self.value.get(XSI_NIL) in ('true', '1')
+        nil = self.value.get(XSI_NIL)  # an xs:boolean: whitespace is collapsed
+        return isinstance(nil, str) and nil.strip(' \t\n\r') in ('true', '1')
 
     @property
     def string_value(self) -> str:
